@@ -52,6 +52,22 @@ Theorem C20_decode_never_hangs : forall E bs,
 Proof. exact decode_never_hangs. Qed.
 Print Assumptions C20_decode_never_hangs.
 
+(** ** stack: [read_expression] recurses once per nesting level of a trigger's WHEN expression.
+    For EVERY stack capacity there is a file of proportional size (2 bytes per level + 48) that
+    overflows it ... *)
+Theorem C20_stack_overflow_reachable : forall E,
+  0 <= stack_limit E ->
+  let k := Z.to_nat (stack_limit E) in
+  load_result E (overflow_file k) = StackOverflow /\ blen (overflow_file k) = 2 * stack_limit E + 48.
+Proof. exact stack_overflow_reachable. Qed.
+Print Assumptions C20_stack_overflow_reachable.
+
+(** ... and a file shorter than the nesting the stack can hold never does *)
+Theorem C20_no_stack_overflow_when_shallow : forall E bs,
+  blen bs < stack_limit E -> load_result E bs <> StackOverflow.
+Proof. exact no_stack_overflow_when_shallow. Qed.
+Print Assumptions C20_no_stack_overflow_when_shallow.
+
 (** ** allocations.  "Every request is bounded by the file size" is false: *)
 Theorem C20_alloc_bounded_refuted :
   blen file_big_prefix = 24 /\ load_trace E0 file_big_prefix = [Alloc 4294967295]
